@@ -200,6 +200,8 @@ MIX = {
     "c03": dict(set=16, setexpr=32, iop=6, unregister=16, regfunc=5, regknob=2, maint=10, load=6, query=7, freeze=0, fault=0),
     "c17": dict(set=24, setexpr=24, iop=8, unregister=10, regfunc=5, regknob=2, maint=12, load=6, query=3, freeze=10, fault=0),
     "c13": dict(set=30, setexpr=50, iop=8, unregister=4, regfunc=0, regknob=0, maint=0, load=0, query=0, freeze=0, fault=0, genfun=8),
+    # C11's manager half: definitions loaded from dumps (overwrite on and off) between assignments; expression tasks only
+    "c11": dict(set=28, setexpr=34, iop=4, unregister=4, regfunc=0, regknob=0, maint=6, load=20, query=4, freeze=0, fault=0),
     "c18": dict(set=40, setexpr=26, iop=6, unregister=3, regfunc=6, regknob=3, maint=2, load=0, query=0, freeze=0, fault=22),
 }
 
@@ -903,9 +905,10 @@ def run_history(rng, family, hist_id, out_lines, stats, failures, maxops):
             if last and rng.random() < 0.6 and all(q in free for q in last):
                 args = last
             sess.step({"op": "genfun", "args": [[q, rng.randint(-6, 9)] for q in args]})
-    if family == "c03" and not sess.frozen:
+    if family in ("c03", "c11") and not sess.frozen:
         try:
-            twin_check(rng, sess.im, sess.mirror, sess.P, sess.fail, stats, hist_id)
+            twin_check(rng, sess.im, sess.mirror, sess.P, sess.fail, stats, hist_id,
+                       via_dump=family == "c11", prop="C11" if family == "c11" else "C03")
         except Exception as e:   # harness problem, not a verdict
             stats["twin_errors"] = stats.get("twin_errors", 0) + 1
             stats["twin_error_sample"] = repr(e)[:200]
@@ -917,10 +920,20 @@ def replay_ops(ops, hist_id, stats, failures, family="c01"):
     sess = Session(hist_id, stats, failures, family)
     for op in ops:
         sess.step(op)
+    if family in ("c03", "c11") and not sess.frozen:
+        # the end-of-history twin oracle, with several follow-up assignments (the original draw is not recorded)
+        import random as _random
+        for k in range(6):
+            try:
+                twin_check(_random.Random(k), sess.im, sess.mirror, sess.P, sess.fail, stats, hist_id,
+                           via_dump=family == "c11", prop="C11" if family == "c11" else "C03")
+            except Exception as e:
+                stats["twin_errors"] = stats.get("twin_errors", 0) + 1
+                stats["twin_error_sample"] = repr(e)[:200]
     return sess
 
 
-def twin_check(rng, im, mirror, P, fail, stats, hist_id):
+def twin_check(rng, im, mirror, P, fail, stats, hist_id, via_dump=False, prop="C03"):
     """a fresh manager over equal containers, only the surviving definitions registered (in another
     order), must react to the next assignment exactly like the original (when the order is immaterial)"""
     import xdeps.tasks as xt
@@ -930,11 +943,26 @@ def twin_check(rng, im, mirror, P, fail, stats, hist_id):
     tw = ml.ImplMgr()
     for lab, c in im.roots.items():
         tw.apply({"op": "container", "label": lab, "value": ml.val_json(c)})
-    order = list(survivors)
-    rng.shuffle(order)
-    for tid, t in order:
-        p = ml.path_of_ref(tid)
-        tw.m.register(xt.ExprTask(tw.ref(p), tw.build(ml.expr_json(t.expr))))
+    if via_dump:
+        # C11: the fresh manager gets its definitions from the text of the original's dump
+        text = im.m.dump()
+        if "nan" in json.dumps(text) or "inf" in json.dumps(text):
+            return      # a constant outside C11's language (left by a guarded division by zero)
+        try:
+            tw.m.load(text)
+        except Exception as e:
+            fail("C11", "load-of-dump-raises", {"exc": type(e).__name__, "dump": text[:6]})
+            return
+        if sorted(tw.m.dump()) != sorted(text):
+            fail("C11", "loaded-definitions-differ", {"dump": sorted(text)[:6], "loaded": sorted(tw.m.dump())[:6]})
+            return
+        stats["dump_twins"] = stats.get("dump_twins", 0) + 1
+    else:
+        order = list(survivors)
+        rng.shuffle(order)
+        for tid, t in order:
+            p = ml.path_of_ref(tid)
+            tw.m.register(xt.ExprTask(tw.ref(p), tw.build(ml.expr_json(t.expr))))
     import io, contextlib
     # same query answers
     for q in rng.sample(P, min(4, len(P))):
@@ -942,9 +970,9 @@ def twin_check(rng, im, mirror, P, fail, stats, hist_id):
         b = tw.apply({"op": "query", "path": q})["impl"]
         for k in ("find_deps", "tasks"):
             if a["exc"] == "ok" and b["exc"] == "ok" and sorted(map(pkey, a[k])) != sorted(map(pkey, b[k])):
-                fail("C03", "query-differs-from-fresh:" + k, {"path": q, "history": sorted(map(pkey, a[k])), "fresh": sorted(map(pkey, b[k]))})
+                fail(prop, "query-differs-from-fresh:" + k, {"path": q, "history": sorted(map(pkey, a[k])), "fresh": sorted(map(pkey, b[k]))})
         if a["exc"] != b["exc"]:
-            fail("C03", "query-exception", {"path": q, "history": a["exc"], "fresh": b["exc"]})
+            fail(prop, "query-exception", {"path": q, "history": a["exc"], "fresh": b["exc"]})
     p = rng.choice(P)
     v = rng.randint(-6, 9)
     a = im.apply({"op": "set", "path": p, "value": v})["impl"]
@@ -953,11 +981,11 @@ def twin_check(rng, im, mirror, P, fail, stats, hist_id):
     T, D = declared(tw)
     cyc2 = has_two_cycle(T, D, triggered_set(T, D, p))
     if a["exc"] != b["exc"]:
-        fail("C03", "followup-exception-differs", {"path": p, "history": a["exc"], "fresh": b["exc"]})
+        fail(prop, "followup-exception-differs", {"path": p, "history": a["exc"], "fresh": b["exc"]})
     elif not cyc2 and ml.canon_val(a["store"]) != ml.canon_val(b["store"]):
-        fail("C03", "followup-contents-differ", {"path": p, "value": v})
+        fail(prop, "followup-contents-differ", {"path": p, "value": v})
     if ml.canon_sup(a["sup"]) != ml.canon_sup(b["sup"]):
-        fail("C03", "supports-differ-from-fresh", {"path": p})
+        fail(prop, "supports-differ-from-fresh", {"path": p})
 
 
 # ----------------------------------------------------------------------------
